@@ -512,3 +512,332 @@ theorem no_drv_in_reconnects (now : Nat) (rcs : List Nat) (s : Sys) (o : Send)
     · exact ih _ h
 
 end Srtla.Reg
+
+/-! ## Run-level facts used by the shell projection (`Lemmas/RegShell.lean`, round 3) -/
+namespace Srtla.Reg
+open Srtla.Gen
+
+/-- `e` is a packet arrival. -/
+def Ev.IsPkt : Ev → Prop
+  | .pkt _ _ _ => True
+  | _ => False
+
+/-- `e` can end an attempt: a packet arrival (REG2 acceptance, REG_ERR) or the timeout check. -/
+def Ev.MayClear : Ev → Prop
+  | .pkt _ _ _ => True
+  | .clearTimeout _ => True
+  | _ => False
+
+theorem St.run_sys (x : St) (tr : List Ev) : (x.run tr).sys = (x.sys.run tr).1 := by
+  induction tr generalizing x with
+  | nil => rfl
+  | cons e es ih => simp only [St.run, Sys.run]; rw [ih]; rfl
+
+theorem St.run_append (x : St) (a b : List Ev) : x.run (a ++ b) = (x.run a).run b := by
+  induction a generalizing x with
+  | nil => rfl
+  | cons e es ih => simp only [List.cons_append, St.run]; exact ih _
+
+theorem reachable_run {x : St} (h : Reachable x) (tr : List Ev) : Reachable (x.run tr) := by
+  induction tr generalizing x with
+  | nil => exact h
+  | cons e es ih => exact ih (reachable_step h e)
+
+/-- Every REG1 emission leaves its target as the pending uplink. -/
+theorem step_reg1_pending (s : Sys) (e : Ev) (o : Send) (ho : o ∈ (s.step e).2) (h1 : o.isReg1 = true) :
+    (s.step e).1.reg.pending = some o.target := by
+  obtain ⟨r, c⟩ := s
+  cases e with
+  | pkt i now buf =>
+    rcases processRegistrationPacket_cases r i now buf with ⟨ht, hp⟩ | ⟨ht, hp⟩ | ⟨_, hp⟩ | ⟨_, hp⟩ | ⟨_, _, _, _, hp⟩
+    · simp only [Sys.step, stepPkt, hp] at ho ⊢
+      grind [handleRegNgp, handleProbeResponse, reg1IfNgpImmediate, buildReg1For]
+    · simp [Sys.step, stepPkt, hp] at ho
+    · simp [Sys.step, stepPkt, hp] at ho
+    · simp [Sys.step, stepPkt, hp] at ho
+    · simp [Sys.step, stepPkt, hp] at ho
+  | clearTimeout now => simp [Sys.step] at ho
+  | probeCheck now =>
+    simp only [Sys.step] at ho
+    split at ho <;> simp at ho
+  | reconnect i now =>
+    simp only [Sys.step, stepReconnect, buildReg1For, buildReg2] at ho ⊢
+    grind [Send.isReg1]
+  | drop i => simp [Sys.step] at ho
+  | updateActive => simp [Sys.step] at ho
+  | driver now =>
+    simp only [Sys.step, stepDriver, regDriverPendingSends, driverReg1, driverBroadcast] at ho ⊢
+    grind [Send.isReg1]
+
+/-- Only a packet arrival or the timeout check can take an attempt away from its uplink. -/
+theorem step_pending_kept (s : Sys) (e : Ev) (he : ¬ e.MayClear) (i : Nat) (hp : s.reg.pending = some i) :
+    (s.step e).1.reg.pending = some i := by
+  obtain ⟨r, c⟩ := s
+  cases e with
+  | pkt i now buf => exact absurd trivial he
+  | clearTimeout now => exact absurd trivial he
+  | probeCheck now => simp only [Sys.step, checkProbingComplete]; grind
+  | reconnect j now => simp only [Sys.step, stepReconnect, buildReg1For]; grind
+  | drop j => exact hp
+  | updateActive => exact hp
+  | driver now =>
+    simp only [Sys.step, stepDriver, regDriverPendingSends, driverReg1, driverBroadcast]; grind
+
+theorem run_pending_kept (tr : List Ev) (s : Sys) (he : ∀ e ∈ tr, ¬ e.MayClear) (i : Nat)
+    (hp : s.reg.pending = some i) : (s.run tr).1.reg.pending = some i := by
+  induction tr generalizing s with
+  | nil => exact hp
+  | cons e es ih =>
+    simp only [Sys.run]
+    exact ih _ (fun e' h' => he e' (by simp [h'])) (step_pending_kept s e (he e (by simp)) i hp)
+
+/-- In a stretch of events none of which can end an attempt, every REG1 goes to the uplink that is
+pending at the end of the stretch: all REG1s of the stretch go to ONE uplink. -/
+theorem run_reg1_pending (tr : List Ev) (s : Sys) (he : ∀ e ∈ tr, ¬ e.MayClear) (o : Send)
+    (ho : o ∈ (s.run tr).2) (h1 : o.isReg1 = true) : (s.run tr).1.reg.pending = some o.target := by
+  induction tr generalizing s with
+  | nil => simp [Sys.run] at ho
+  | cons e es ih =>
+    simp only [Sys.run, List.mem_append] at ho ⊢
+    rcases ho with ho | ho
+    · exact run_pending_kept es _ (fun e' h' => he e' (by simp [h'])) _ (step_reg1_pending s e o ho h1)
+    · exact ih _ (fun e' h' => he e' (by simp [h'])) ho
+
+/-- The same for a whole housekeeping pass (whose first step, the timeout check, emits nothing). -/
+theorem tick_reg1_pending (s : Sys) (now : Nat) (rcs : List Nat) (o : Send)
+    (ho : o ∈ (s.run (tickEvs now rcs)).2) (h1 : o.isReg1 = true) :
+    (s.run (tickEvs now rcs)).1.reg.pending = some o.target := by
+  have htick : tickEvs now rcs = .clearTimeout now ::
+      (.probeCheck now :: (rcs.map (fun i => Ev.reconnect i now) ++ [.updateActive, .driver now])) := by
+    simp [tickEvs]
+  rw [htick] at ho ⊢
+  simp only [Sys.run, step_clear_nosend, step_probeCheck_nosend, List.nil_append] at ho ⊢
+  apply run_reg1_pending _ _ _ o ho h1
+  intro e he
+  simp only [List.mem_cons, List.mem_append, List.mem_map, List.not_mem_nil, or_false] at he
+  rcases he with ⟨i, -, rfl⟩ | rfl | rfl <;> simp [Ev.MayClear]
+
+/-- Without a packet arrival the id does not move, and everything emitted is built from it. -/
+theorem run_ids (tr : List Ev) (s : Sys) (he : ∀ e ∈ tr, ¬ e.IsPkt) :
+    (s.run tr).1.reg.id = s.reg.id ∧
+    ∀ o ∈ (s.run tr).2, o.pkt = (if o.isReg1 then Codec.createReg1 s.reg.id else Codec.createReg2 s.reg.id) := by
+  induction tr generalizing s with
+  | nil => exact ⟨rfl, fun o ho => by simp [Sys.run] at ho⟩
+  | cons e es ih =>
+    have hid : (s.step e).1.reg.id = s.reg.id := by
+      rcases step_id s e with h | ⟨idx, now, buf, rfl, -⟩
+      · exact h
+      · exact absurd (show (Ev.pkt idx now buf).IsPkt from trivial) (he _ (by simp))
+    obtain ⟨i1, i2⟩ := ih (s.step e).1 (fun e' h' => he e' (by simp [h']))
+    simp only [Sys.run]
+    refine ⟨i1.trans hid, fun o ho => ?_⟩
+    rcases List.mem_append.1 ho with ho | ho
+    · rcases step_sends s e o ho with h | h | h | h | h
+      · simp [Send.isReg1, h.1, h.2.2.2.2]
+      · simp [Send.isReg1, h.1, h.2.2.2.2.2]
+      · simp [Send.isReg1, h.1, h.2.2.2]
+      · simp [Send.isReg1, h.1, h.2.2.2]
+      · simp [Send.isReg1, h.1, h.2.2.2]
+    · rw [← hid]; exact i2 o ho
+
+theorem tickEvs_noPkt (now : Nat) (rcs : List Nat) : ∀ e ∈ tickEvs now rcs, ¬ e.IsPkt := by
+  intro e he
+  simp only [tickEvs, List.mem_cons, List.mem_append, List.mem_map, List.not_mem_nil, or_false] at he
+  rcases he with ((rfl | rfl) | ⟨i, -, rfl⟩) | rfl | rfl <;> simp [Ev.IsPkt]
+
+/-- Over a run, a flag that ends up `true` without having been `true` was raised by a REG3 on that uplink. -/
+theorem run_connected (tr : List Ev) (s : Sys) (k : Nat)
+    (h1 : (s.run tr).1.connected[k]? = some true) (h0 : s.connected[k]? ≠ some true) :
+    ∃ e ∈ tr, e.IsPktOn k 37378 := by
+  induction tr generalizing s with
+  | nil => exact absurd h1 h0
+  | cons e es ih =>
+    simp only [Sys.run] at h1
+    by_cases hk : (s.step e).1.connected[k]? = some true
+    · exact ⟨e, by simp, step_connected s e k hk h0⟩
+    · obtain ⟨e', he', h⟩ := ih _ h1 hk
+      exact ⟨e', by simp [he'], h⟩
+
+/-- The broadcast debt is raised only by an accepted REG2 and paid only by the driver; the id moves
+only with an accepted REG2. -/
+theorem step_bp (s : Sys) (e : Ev) :
+    ((s.step e).1.reg.broadcastPending = s.reg.broadcastPending ∨ e.IsDriver ∨
+      ∃ idx now buf, e = .pkt idx now buf ∧ pktType buf = some 37377 ∧ 258 ≤ buf.length ∧
+        s.reg.pending = some idx) := by
+  obtain ⟨r, c⟩ := s
+  cases e with
+  | pkt i now buf =>
+    rcases processRegistrationPacket_cases r i now buf with ⟨_, hp⟩ | ⟨ht, hp⟩ | ⟨_, hp⟩ | ⟨_, hp⟩ | ⟨_, _, _, _, hp⟩
+    · left
+      simp only [Sys.step, stepPkt, hp]
+      grind [handleRegNgp, handleProbeResponse, reg1IfNgpImmediate, buildReg1For]
+    · simp only [Sys.step, stepPkt, hp]
+      by_cases hacc : 258 ≤ buf.length ∧ r.pending = some i
+      · right; right
+        exact ⟨i, now, buf, rfl, ht, hacc.1, hacc.2⟩
+      · left
+        grind [handleReg2, Proto.SRTLA_ID_LEN_eq]
+    · left; simp only [Sys.step, stepPkt, hp, handleReg3]
+    · left; simp only [Sys.step, stepPkt, hp, handleRegErr]
+    · left; simp only [Sys.step, stepPkt, hp]
+  | clearTimeout now => left; simp only [Sys.step, clearPendingIfTimedOut]; grind
+  | probeCheck now => left; simp only [Sys.step, checkProbingComplete]; grind
+  | reconnect i now => left; simp only [Sys.step, stepReconnect, buildReg1For]; grind
+  | drop i => left; rfl
+  | updateActive => left; rfl
+  | driver now => right; left; trivial
+
+theorem run_bp (tr : List Ev) (s : Sys) (he : ∀ e ∈ tr, ¬ e.IsPkt ∧ ¬ e.IsDriver) :
+    (s.run tr).1.reg.broadcastPending = s.reg.broadcastPending := by
+  induction tr generalizing s with
+  | nil => rfl
+  | cons e es ih =>
+    simp only [Sys.run]
+    rw [ih _ (fun e' h' => he e' (by simp [h']))]
+    rcases step_bp s e with h | h | ⟨idx, now, buf, rfl, -⟩
+    · exact h
+    · exact absurd h (he e (by simp)).2
+    · exact absurd (show (Ev.pkt idx now buf).IsPkt from trivial) (he _ (by simp)).1
+
+/-- What the driver's answer says about the broadcast: one REG2 carrying the id iff a broadcast is
+owed; the debt is cleared. -/
+theorem driver_bcast_eq (r : Reg) (now : Nat) :
+    (regDriverPendingSends r now).2.broadcastReg2 =
+      (if r.broadcastPending then some (Codec.createReg2 r.id) else none) ∧
+    (regDriverPendingSends r now).1.broadcastPending = false ∧
+    (regDriverPendingSends r now).1.id = r.id := by
+  simp only [regDriverPendingSends, driverReg1, driverBroadcast]
+  grind
+
+end Srtla.Reg
+
+/-! ## The REG2 wait: which events move the deadline of a pending attempt (round 3, `C07_abandon_bound`) -/
+namespace Srtla.Reg
+open Srtla.Gen
+
+/-- A packet arrival that leaves an attempt pending leaves it on the same uplink, with the same deadline. -/
+theorem pkt_deadline (s : Sys) (idx now : Nat) (buf : Bytes) (i i' : Nat) (hp : s.reg.pending = some i)
+    (hp' : (s.step (.pkt idx now buf)).1.reg.pending = some i') :
+    i' = i ∧ (s.step (.pkt idx now buf)).1.reg.pendingTimeoutAt = s.reg.pendingTimeoutAt := by
+  obtain ⟨r, c⟩ := s
+  simp only at hp
+  rcases processRegistrationPacket_cases r idx now buf with ⟨_, hq⟩ | ⟨_, hq⟩ | ⟨_, hq⟩ | ⟨_, hq⟩ | ⟨_, _, _, _, hq⟩
+  · simp only [Sys.step, stepPkt, hq] at hp' ⊢
+    grind [handleRegNgp, handleProbeResponse, reg1IfNgpImmediate, buildReg1For]
+  · simp only [Sys.step, stepPkt, hq] at hp' ⊢
+    grind [handleReg2]
+  · simp only [Sys.step, stepPkt, hq, handleReg3] at hp' ⊢
+    grind
+  · simp only [Sys.step, stepPkt, hq, handleRegErr] at hp' ⊢
+    grind
+  · simp only [Sys.step, stepPkt, hq] at hp' ⊢
+    grind
+
+/-- The reconnect branches of a pass while uplink `i` is pending: the attempt stays on `i`; its
+deadline is renewed to `now + 4000` iff `i` itself takes the branch. -/
+theorem reconnects_pending (now : Nat) (rcs : List Nat) (s : Sys) (i : Nat) (hp : s.reg.pending = some i) :
+    (s.run (rcs.map fun k => Ev.reconnect k now)).1.reg.pending = some i ∧
+    (s.run (rcs.map fun k => Ev.reconnect k now)).1.reg.pendingTimeoutAt =
+      (if i ∈ rcs then now + 4000 else s.reg.pendingTimeoutAt) ∧
+    (s.run (rcs.map fun k => Ev.reconnect k now)).1.reg.probing = s.reg.probing := by
+  induction rcs generalizing s with
+  | nil => simp [Sys.run, hp]
+  | cons k ks ih =>
+    simp only [List.map_cons, Sys.run]
+    have hstep : (s.step (.reconnect k now)).1.reg.pending = some i ∧
+        (s.step (.reconnect k now)).1.reg.pendingTimeoutAt =
+          (if k = i then now + 4000 else s.reg.pendingTimeoutAt) ∧
+        (s.step (.reconnect k now)).1.reg.probing = s.reg.probing := by
+      obtain ⟨r, c⟩ := s
+      simp only at hp
+      simp only [Sys.step, stepReconnect, buildReg1For, hp, reg2WaitMs_eq]
+      by_cases hk : i = k
+      · simp [hk]
+      · have : ¬ k = i := fun h => hk h.symm
+        simp [hk, this, hp]
+    obtain ⟨a1, a2, a3⟩ := hstep
+    obtain ⟨b1, b2, b3⟩ := ih _ a1
+    refine ⟨b1, ?_, b3.trans a3⟩
+    rw [b2, a2]
+    by_cases hk : k = i
+    · subst hk; simp
+    · have : ¬ i = k := fun h => hk h.symm
+      by_cases hm : i ∈ ks <;> simp [hk, this, hm]
+
+/-- With nothing pending the reconnect branches leave the manager alone (they re-send REG2). -/
+theorem reconnects_none (now : Nat) (rcs : List Nat) (s : Sys) (hp : s.reg.pending = none) :
+    (s.run (rcs.map fun k => Ev.reconnect k now)).1.reg = s.reg := by
+  induction rcs generalizing s with
+  | nil => rfl
+  | cons k ks ih =>
+    simp only [List.map_cons, Sys.run]
+    have hstep : (s.step (.reconnect k now)).1.reg = s.reg := by
+      obtain ⟨r, c⟩ := s
+      simp only at hp
+      simp only [Sys.step, stepReconnect, hp]
+    rw [ih _ (by rw [hstep]; exact hp), hstep]
+
+/-- **One housekeeping pass while uplink `i` is pending** (deadline set, not waiting for probe
+replies).  From the deadline on the pass abandons the attempt and starts no new one; before the
+deadline the attempt stays on `i` and its deadline is renewed to `now + 4000` iff `i` is among the
+links that take the reconnect branch in this pass — otherwise it is unchanged. -/
+theorem tick_deadline (s : Sys) (now : Nat) (rcs : List Nat) (i : Nat) (hp : s.reg.pending = some i)
+    (hw : s.reg.probing ≠ .waiting) (hD : s.reg.pendingTimeoutAt ≠ 0) :
+    (s.reg.pendingTimeoutAt ≤ now → (s.run (tickEvs now rcs)).1.reg.pending = none) ∧
+    (now < s.reg.pendingTimeoutAt →
+      (s.run (tickEvs now rcs)).1.reg.pending = some i ∧
+      (s.run (tickEvs now rcs)).1.reg.pendingTimeoutAt =
+        (if i ∈ rcs then now + 4000 else s.reg.pendingTimeoutAt)) := by
+  have htick : tickEvs now rcs = [.clearTimeout now, .probeCheck now] ++
+      ((rcs.map fun k => Ev.reconnect k now) ++ [.updateActive, .driver now]) := by
+    simp [tickEvs]
+  rw [htick, Sys.run_append, Sys.run_append]
+  simp only
+  generalize hs1 : (s.run [Ev.clearTimeout now, Ev.probeCheck now]).1 = s1
+  -- the state after `clear_pending_if_timed_out` and the probing check
+  have h1 : s1.reg.probing = s.reg.probing ∧
+      (s.reg.pendingTimeoutAt ≤ now → s1.reg.pending = none ∧ s1.reg.target = none) ∧
+      (now < s.reg.pendingTimeoutAt → s1.reg.pending = some i ∧
+        s1.reg.pendingTimeoutAt = s.reg.pendingTimeoutAt) := by
+    rw [← hs1]
+    obtain ⟨r, c⟩ := s
+    simp only at hp hw hD
+    simp only [Sys.run, Sys.step, clearPendingIfTimedOut, checkProbingComplete, isProbing, hp]
+    grind
+  obtain ⟨w1, c1, c2⟩ := h1
+  -- the tail: `update_active_connections`, driver
+  have htail : ∀ x : Sys, (x.run [Ev.updateActive, Ev.driver now]).1.reg.pendingTimeoutAt = x.reg.pendingTimeoutAt ∨
+      x.reg.pending = none := by
+    intro x
+    obtain ⟨r, c⟩ := x
+    simp only [Sys.run, Sys.step, stepDriver, regDriverPendingSends, driverReg1, driverBroadcast,
+      updateActiveConnections]
+    grind
+  have htailp : ∀ (x : Sys) j, x.reg.pending = some j →
+      (x.run [Ev.updateActive, Ev.driver now]).1.reg.pending = some j :=
+    fun x j hj => run_pending_kept _ x (by
+      intro e he
+      simp only [List.mem_cons, List.not_mem_nil, or_false] at he
+      rcases he with rfl | rfl <;> simp [Ev.MayClear]) j hj
+  have htailn : ∀ x : Sys, x.reg.pending = none → x.reg.target = none →
+      (x.run [Ev.updateActive, Ev.driver now]).1.reg.pending = none := by
+    intro x h1 h2
+    obtain ⟨r, c⟩ := x
+    simp only at h1 h2
+    simp only [Sys.run, Sys.step, stepDriver, regDriverPendingSends, driverReg1, driverBroadcast,
+      updateActiveConnections, h1, h2]
+    grind
+  constructor
+  · intro hle
+    obtain ⟨p1, t1⟩ := c1 hle
+    have hr := reconnects_none now rcs s1 p1
+    exact htailn _ (by rw [hr]; exact p1) (by rw [hr]; exact t1)
+  · intro hlt
+    obtain ⟨p1, d1⟩ := c2 hlt
+    obtain ⟨r1, r2, -⟩ := reconnects_pending now rcs s1 i p1
+    refine ⟨htailp _ i r1, ?_⟩
+    rcases htail (s1.run (rcs.map fun k => Ev.reconnect k now)).1 with h | h
+    · rw [h, r2, d1]
+    · rw [r1] at h; cases h
+
+end Srtla.Reg
